@@ -132,12 +132,26 @@ def run_case(rec, kc):
         if not np.array_equal(np.asarray(AD2), AD[:min(nder, 2) + 1]):
             rec.violation(dict(sig0, route='active_deriv_noncontig', oracle='same as contiguous'), kc, {})
         rec.count('oracle:noncontig')
+    # scalar form: all calls first, comparison afterwards -- a result must stay what it was when later calls are made
+    held = []
     for c in (0, len(xs) // 2, len(xs) - 1):
         ok, ADs = guarded(rec, kc, dict(sig0, route='active_deriv_scalar'), bspline.active_deriv, kv, float(xs[c]), nder)
-        if ok and AD is not None:
-            if not np.array_equal(np.asarray(ADs), AD[:, :, c]):
+        if ok: held.append((c, ADs, np.array(ADs, copy=True)))
+    for c, ADs, snap in held:
+        if not np.array_equal(np.asarray(ADs), snap):
+            rec.violation(dict(sig0, route='active_deriv_scalar', oracle='a returned result is not changed by later calls'), kc, {'x': float(xs[c])}); break
+        if AD is not None:
+            if not np.array_equal(snap, AD[:, :, c]):
                 rec.violation(dict(sig0, route='active_deriv_scalar', oracle='same as array'), kc, {'x': float(xs[c])})
             rec.count('oracle:scalar_arg')
+    heldE = []
+    for c in (0, len(xs) - 1, len(xs) // 2):
+        ok, AEs_ = guarded(rec, kc, dict(sig0, route='active_ev_scalar'), bspline.active_ev, kv, float(xs[c]))
+        if ok: heldE.append((c, AEs_, np.array(AEs_, copy=True)))
+    for c, AEs_, snap in heldE:
+        rec.count('oracle:results_not_aliased')
+        if not np.array_equal(np.asarray(AEs_), snap):
+            rec.violation(dict(sig0, route='active_ev_scalar', oracle='a returned result is not changed by later calls'), kc, {'x': float(xs[c])}); break
     # ---- route: active_ev
     ok, AE = guarded(rec, kc, dict(sig0, route='active_ev'), bspline.active_ev, kv, xs)
     if ok:
@@ -228,11 +242,14 @@ def run_case(rec, kc):
     from verif.gen import rng_for
     rng = rng_for('C02coef', kc.get('seed', 0), kc.get('idx', 0))
     coef = rng.standard_normal(n)
-    for k in range(0, min(p, 3) + 1):
+    for k in list(range(0, min(p, 3) + 1)) + [p + 1, p + 2]:
         refv = np.zeros(len(xs)); bv = np.zeros(len(xs))
-        for c in range(len(xs)):
-            refv[c] = np.dot(coef[first[c]:first[c] + p + 1], REF[k, :, c])
-            bv[c] = np.dot(np.abs(coef[first[c]:first[c] + p + 1]), BND[k, :, c])
+        if k <= p:
+            for c in range(len(xs)):
+                refv[c] = np.dot(coef[first[c]:first[c] + p + 1], REF[k, :, c])
+                bv[c] = np.dot(np.abs(coef[first[c]:first[c] + p + 1]), BND[k, :, c])
+        else:
+            rec.count('oracle:deriv_order_gt_p')          # derivatives of order > p of a piecewise polynomial of degree p vanish
         if k == 0:
             ok, got = guarded(rec, kc, dict(sig0, route='ev'), bspline.ev, kv, coef, xs)
         else:
